@@ -38,7 +38,7 @@ def spec_for(prop, tier, seed, i):
     r = random.Random(rs)
     P = pr.pick(r, tier)
     S = gen_spec(r, P)
-    if not P.get("allow_known"):
+    if not P.get("allow_known") and not os.environ.get("VERIF_NO_SANITIZE"):
         S = sanitize(S)
     if pr.post is not None:
         S = pr.post(S, r, tier)
